@@ -588,6 +588,9 @@ func runNeComplementsEq(c *Ctx, r *Rep) {
 }
 
 func init() {
+	register(&Rule{ID: "C15.R12", Prop: "C15", Floor: 3,
+		Doc: "numeric comparisons: for every type of package py that defines both, the decision table of M__ne__ equals that of M__eq__ with True and False exchanged — in particular a nan operand makes == False and != True, which a three-way comparison cannot express (the same rule as C13.R7)",
+		Run: runNeComplementsEq})
 	register(&Rule{ID: "C13.R7", Prop: "C13", Floor: 3,
 		Doc: "for every type of package py that defines both, the decision table of M__ne__ equals that of M__eq__ with True and False exchanged (sibling agreement by symbolic path enumeration; element-wise loops are out of scope)",
 		Run: runNeComplementsEq})
